@@ -127,6 +127,15 @@ class Evaluator:
                         return self.ev(d)
                     finally:
                         self.depth -= 1
+            if e.get('vk') in ('global', 'slocal') and e.get('q') and self.depth < 8:
+                # a const-qualified namespace-scope / static constant with a constant initialiser
+                g = self.prog.globals.get(e['q'])
+                if g is not None and g.get('const') and isinstance(g.get('init'), dict):
+                    self.depth += 1
+                    try:
+                        return Evaluator(self.prog, dict(self.f, _types=g.get('_types', self.f.get('_types'))), {}, {}, self.depth).ev(g['init'])
+                    finally:
+                        self.depth -= 1
             raise Undecidable('free variable %s' % e.get('n'))
         if k == 'un':
             op = e['op']
